@@ -595,6 +595,41 @@ def R3_loop(run):
             ok = strip(c[2][0]) == ("var", "current_liquidity", liq) and is_param(c[2][2], "a_to_b") and mentions(c[2][1], lambda s: s[0] == "call" and s[1].endswith("_initialized_tick"))
     run.check("R3", "crossing-only-at-tick", ok, "SDK applies get_next_liquidity(current, next tick, a_to_b) elsewhere than on `step.next_sqrt_price == next_tick_sqrt_price`", loc=b.loc(),
               detail="next price == tick price => liquidity := get_next_liquidity(liquidity, tick, a_to_b)")
+    for name, edge, cmpop, stepper in (("next_initialized_tick", "end_index", "Gt", "get_next_initializable_tick_index"), ("prev_initialized_tick", "start_index", "Lt", "get_prev_initializable_tick_index")):
+        sfn = K.need_fn("math::tick_array::TickArraySequence::<SIZE>::" + name)
+        run.touch(sfn)
+        pvs = Prov(sfn, cut=True)
+        ats = A.atoms(sfn, cut=True)
+        init = [at for at in ats if strip(at.term)[0] == "field" and strip(at.term)[2] == "initialized"]
+        oob = [at for at in ats if at.cond() and at.cond()[0] == cmpop and strip(at.cond()[1])[0] == "var" and is_call(at.cond()[2], edge)]
+        ok = len(init) == 1 and len(oob) == 1
+        if ok:
+            some_r, none_r = set(), set()
+            for bi, bb in enumerate(sfn.blocks):
+                if bb["t"]["k"] != "ret":
+                    continue
+                for l in leaves(pvs.local(0, bi, len(bb["s"]))):
+                    pl = _ok_payload(l)
+                    if pl is None or pl[0] != "tuple":
+                        continue
+                    first = strip(pl[1][0])
+                    src = [d for d in pvs.defs.get(0, [])]
+                    if first[0] == "agg" and first[2] == "Some":
+                        some_r.add((sh(dict(first[3])["0"], 60), sh(pl[1][1], 30)))
+                        ok = ok and mentions(first, lambda s: s[0] == "call" and s[1].endswith(">::tick")) and strip(pl[1][1])[0] == "var"
+                    elif first[0] == "agg" and first[2] == "None":
+                        none_r.add(sh(pl[1][1], 40))
+                        ok = ok and is_call(pl[1][1], edge)
+            ok = ok and len(some_r) == 1 and len(none_r) == 1
+            # Some(..) is constructed only on the initialised side
+            some_blocks = [bi for bi, bb in enumerate(sfn.blocks) for si_, st in enumerate(bb["s"]) if st["k"] == "=" and (st["rv"].get("agg") or {}).get("v") == "Some" and
+                           mentions(pvs._rvalue(st["rv"], bi, si_, 0), lambda s: s[0] == "call" and s[1].endswith(">::tick"))]
+            at = init[0]
+            ok = ok and bool(some_blocks) and all(b_ in cfg.reach(sfn, at.true_targets[0], cut_blocks=[at.block]) and b_ not in cfg.reach(sfn, at.false_targets[0], cut_blocks=[at.block]) for b_ in some_blocks)
+            steps = {callee_path(t).rsplit("::", 1)[-1] for _, t in sfn.calls() if "initializable_tick_index" in (callee_path(t) or "")}
+            ok = ok and stepper in steps
+        run.check("R3", "sequence@" + name, ok, "SDK %s must return Some(tick) only for an initialised tick and (None, %s()) when the search leaves the supplied arrays" % (name, edge), loc=sfn.loc(),
+                  detail="initialized => (Some(tick), index); beyond the arrays => (None, %s)" % edge)
     g = K.need_fn(SW + "get_next_liquidity")
     run.touch(g)
     neg = [at for at in A.atoms(g) if at.cond() and at.cond()[0] in ("Lt", "Ge") and const_val(at.cond()[2]) == 0]
